@@ -51,6 +51,7 @@ SRC = "exetera/core/operations.py"
 #   arr2 (2-D integer array: the list of its rows; `a[k]` is row k, `for row in a`, `len(a)` the number of rows)
 #   arr2w (a 2-D integer array whose subscripts follow numpy's WRAP-AROUND of a negative index, `-len ≤ i < 0` is `len + i`:
 #          `fast_csv_reader` reads `column_inds[col_index, -1]` while it is on the header line)
+#   str (a Python str; only `==` / `!=` against string literals)
 WHITELIST = [
     ("apply_spans_count", ["arr", "opt_arr"]),
     ("apply_spans_first", ["arr", "arr", "opt_arr"]),
@@ -109,6 +110,9 @@ WHITELIST = [
     ("fast_csv_reader", ["arr", "int", "arr2w", "arr", "arr", "bool", "int", "int", "int", "int"],
      {"src": "exetera/core/csv_reader_speedup.py"}),
     ("transform_to_values", ["arr2", "arr", "arr", "int", "int"]),
+    # elements / validity are the bool arrays NumericImporter.import_part allocates (np.zeros(n, 'bool'), np.ones(n, bool)),
+    # invalid_value its integer default (0), validation_mode a Python str, field_name the bytes of the name (a uint8 array)
+    ("numeric_bool_transform", ["barr", "barr", "arr2", "arr", "arr", "int", "int", "int", "str", "arr"]),
 ]
 
 LEAN_T = {"int": "Int", "bool": "Bool", "arr": "List Int", "barr": "List Bool", "opt_arr": "Option (List Int)",
@@ -116,6 +120,8 @@ LEAN_T = {"int": "Int", "bool": "Bool", "arr": "List Int", "barr": "List Bool", 
 DEFAULT = {"int": "0", "bool": "false", "arr": "[]", "barr": "[]", "arr2": "[]", "arr2w": "[]"}
 ELEM = {"arr": "int", "barr": "bool", "arr2": "arr"}        # arr2: a 2-D integer array, passed as the list of its rows
 ELEM["arr2w"] = "arr"
+LEAN_T["str"] = "String"        # a Python str parameter: only compared (`==` / `!=`) with string literals
+DEFAULT["str"] = '""'           # (a local bound to a string literal: its slot before the binding)
 
 
 class Unsupported(Exception):
@@ -419,6 +425,8 @@ class Kernel:
                 return "bool", "true" if n.value else "false", []
             if isinstance(n.value, int):
                 return "int", str(n.value), []
+            if isinstance(n.value, str) and all(32 <= ord(ch) < 127 and ch not in '"\\' for ch in n.value):
+                return "str", lean_str(n.value), []                 # a string literal (printable ASCII only)
             raise Unsupported(f"constant {n.value!r}")
         if isinstance(n, ast.Name):
             return self.var(n.id, defined)
@@ -466,6 +474,26 @@ class Kernel:
                 isinstance(n.left, ast.Name) and n.left.id in self.optint and is_none(n.comparators[0]):
             flag = f"s.{n.left.id}_some"
             return "bool", (f"(!{flag})" if isinstance(n.ops[0], ast.Is) else flag), []
+        if isinstance(n, ast.Compare) and len(n.ops) == 1 and isinstance(n.ops[0], ast.In) and \
+                isinstance(n.comparators[0], ast.Tuple):
+            # `x in (c1, c2, …)` against a non-empty tuple of integer literals: Python compares with c1, c2, … in order
+            cs = []
+            for e in n.comparators[0].elts:
+                neg = isinstance(e, ast.UnaryOp) and isinstance(e.op, ast.USub)
+                c = e.operand if neg else e
+                if not (isinstance(c, ast.Constant) and isinstance(c.value, int) and not isinstance(c.value, bool)):
+                    raise Unsupported("`in` against a tuple with an element that is not an integer literal")
+                cs.append(f"(-{c.value})" if neg else str(c.value))
+            if not cs:
+                raise Unsupported("`in` against an empty tuple")
+            t, x, b = self.expr(n.left, defined)
+            if t == "int":
+                return "bool", "(" + " || ".join(f"{x} == {c}" for c in cs) + ")", b        # a disjunction of equalities
+            if t == "arr":
+                # an ARRAY on the left: `bool(c1 == a) or …` — the truth value of an array of length ≠ 1 is a ValueError
+                tmp = self.fresh()
+                return "bool", tmp, b + [(tmp, f"arrInTupleE {x} [{', '.join(cs)}]")]
+            raise Unsupported(f"`in` with a {t} on the left")
         if isinstance(n, ast.Compare):
             operands = [n.left] + list(n.comparators)
             parts = [self.expr(o, defined) for o in operands]
@@ -477,6 +505,8 @@ class Kernel:
                 if tl == "int" and tr == "int" and o in (ast.Lt, ast.LtE, ast.Gt, ast.GtE):
                     terms.append(f"(decide ({xl} {({ast.Lt: '<', ast.LtE: '≤', ast.Gt: '>', ast.GtE: '≥'})[o]} {xr}))")
                 elif tl == tr and tl in ("int", "bool") and o in (ast.Eq, ast.NotEq):
+                    terms.append(f"({xl} {'==' if o is ast.Eq else '!='} {xr})")
+                elif tl == "str" and tr == "str" and o in (ast.Eq, ast.NotEq):
                     terms.append(f"({xl} {'==' if o is ast.Eq else '!='} {xr})")
                 elif tl == "bool" and tr == "bool" and o in (ast.Is, ast.IsNot) and xr in ("true", "false"):
                     terms.append(f"({xl} {'==' if o is ast.Is else '!='} {xr})")
@@ -574,6 +604,9 @@ class Kernel:
         if isinstance(n, ast.List):
             # a list literal of integers (`[]` is taken to be a list of integers: a later append of anything else fails)
             parts = [self.expr(e, defined) for e in n.elts]
+            if parts and all(p[0] == "arr" for p in parts):
+                # a list literal of arrays: a list of arrays (like a 2-D array, the list of its rows)
+                return "arr2", "[" + ", ".join(p[1] for p in parts) + "]", [b for p in parts for b in p[2]]
             if any(p[0] != "int" for p in parts):
                 raise Unsupported("list literal with non-integer elements")
             return "arr", "[" + ", ".join(p[1] for p in parts) + "]", [b for p in parts for b in p[2]]
@@ -715,6 +748,24 @@ class Kernel:
             if len(st.targets) != 1:
                 raise Unsupported("chained assignment")
             tg = st.targets[0]
+            if isinstance(tg, ast.Tuple):
+                # `a, b = x, y`: the right-hand sides are evaluated first, left to right, then bound left to right
+                if not (isinstance(st.value, ast.Tuple) and len(st.value.elts) == len(tg.elts) and
+                        all(isinstance(e, ast.Name) for e in tg.elts)):
+                    raise Unsupported("tuple assignment that is not `name, … = expr, …` of equal lengths")
+                if any(isinstance(e, ast.List) and not e.elts for e in st.value.elts):
+                    raise Unsupported("tuple assignment of an empty list")
+                parts = [self.expr(e, defined) for e in st.value.elts]
+                lines, binds = [], []
+                for e, (t, x, b) in zip(tg.elts, parts):
+                    binds += b
+                    tmp = self.fresh()
+                    lines.append((e.id, t, tmp, x))
+                out = [f"let {tmp} : {LEAN_T[t]} := {x}" for (_, t, tmp, x) in lines]
+                for (v, t, tmp, _) in lines:
+                    out.append(self.assign_name(v, t, tmp))
+                    defined = defined | {v}
+                return self.wrap(binds, "\n".join(out)).split("\n"), defined, False
             t, x, b = self.expr(st.value, defined)
             if isinstance(tg, ast.Name) and tg.id in self.arr2_locals and isinstance(st.value, ast.List) and not st.value.elts:
                 t = "arr2"                                          # `[]` of a list of arrays (see `append`)
@@ -758,6 +809,8 @@ class Kernel:
                     b = b + [(tmp, f"setIdxNegE {xb_} {self.neg_const(tg.slice)} {x} {site}")]
                 else:
                     ti, xi, bi = self.expr(tg.slice, defined)
+                    if ti == "int" and t == "int" and tb_ == "barr":
+                        t, x = "bool", f"({x} != 0)"                # an integer stored into a bool array: nonzero ↦ True
                     if ti != "int" or t != ELEM[tb_]:
                         raise Unsupported(f"store of a {t} at an index of type {ti} into a {tb_}")
                     b = b + bi + [(tmp, f"setIdxE {xb_} {xi} {x} {site}")]
@@ -1100,8 +1153,9 @@ class Kernel:
     def dispatch_arm(self):
         n = len(self.ptypes)
         conv = {"int": "asInt?", "bool": "asBool?", "arr": "asArr?", "barr": "asBArr?", "opt_arr": "asOptArr?",
-                "arr2": "asArr2?", "opt_int": "asOptInt?", "arr2w": "asArr2?"}
-        mk = {"int": "Val.int", "bool": "Val.bool", "arr": "Val.arr", "barr": "Val.barr", "arr2": "Val.arr2", "arr2w": "Val.arr2"}
+                "arr2": "asArr2?", "opt_int": "asOptInt?", "arr2w": "asArr2?", "str": "asStr?"}
+        mk = {"int": "Val.int", "bool": "Val.bool", "arr": "Val.arr", "barr": "Val.barr", "arr2": "Val.arr2", "arr2w": "Val.arr2",
+              "str": "Val.str"}
         pats = ", ".join(f"a{k}" for k in range(n))
         scrut = ", ".join(f"a{k}.{conv[t]}" for k, t in enumerate(self.ptypes))
         somes = ", ".join(f"some x{k}" for k in range(n))
